@@ -33,7 +33,12 @@ where
     // the target is written into the request line and the Host header as is: blanks, line breaks or
     // other control characters would change what the upstream reads
     if let crate::context::TargetAddress::DomainPort(host, _) = &target {
-        if host.bytes().any(|b| b <= b' ' || b == 0x7f) {
+        // ... and so would the delimiters of the authority itself: `a:1` with port 80 reads as `a:1:80`
+        // (which colon is the separator?), `[::1]` as an address literal although it was routed as a name
+        if host
+            .bytes()
+            .any(|b| b <= b' ' || b == 0x7f || b == b':' || b == b'[' || b == b']')
+        {
             bail!("host name can not be sent in a CONNECT request: {:?}", host);
         }
     }
